@@ -172,10 +172,19 @@ type selectItem struct {
 	Alias string
 }
 
+func quoteIdent(name string) string {
+	for _, c := range name {
+		if !(c >= 'a' && c <= 'z' || c >= 'A' && c <= 'Z' || c >= '0' && c <= '9' || c == '_') {
+			return "`" + name + "`"
+		}
+	}
+	return name
+}
+
 func (s selectItem) sql() string {
-	x := s.Field
+	x := quoteIdent(s.Field)
 	if s.Fn != "" {
-		x = s.Fn + "(" + s.Field + ")"
+		x = s.Fn + "(" + x + ")"
 	}
 	if s.Alias != "" {
 		x += " as " + s.Alias
